@@ -81,6 +81,26 @@ let do_kern args =
     String.concat " " (List.map hex_of_bytes res) ^ " |" ^ String.concat "" (List.map (fun b -> " " ^ hex_of_bytes b) others)
   | _ -> "BADREQ"
 
+(* ---- stream it:  I <k> <r> <L> <lastnull> <rows: c,c,c/c,c/...> <vals: hex.hex...> <esi> ... *)
+let parse_rows s = List.map (fun row -> if row = "" then [] else List.map (fun c -> nat_of_int (int_of_string c)) (String.split_on_char ',' row)) (String.split_on_char '/' s)
+let mask l = String.concat "" (List.map (fun b -> if b then "1" else "0") l)
+let do_it args =
+  match args with
+  | k :: r :: l :: ln :: rows :: vals :: esis ->
+    let k = int_of_string k and r = int_of_string r and l = int_of_string l in
+    let h = parse_rows rows in
+    let v = List.map bytes_of_hex (String.split_on_char '.' vals) in
+    let res = it_session (nat_of_int k) (nat_of_int r) (nat_of_int l) h (ln = "1") v (List.map (fun e -> nat_of_int (int_of_string e)) esis) in
+    let last = ref None in
+    let toks = List.map (fun o -> match o with
+      | None -> "OUT-OF-FUEL"
+      | Some o -> last := Some o; Printf.sprintf "S%d:%s:%s" (if o.o_complete then 1 else 0) (mask o.o_src) (mask o.o_rep)) res in
+    let fin = match !last with
+      | None -> "V"
+      | Some o -> "V" ^ String.concat "." (List.map (fun x -> match x with None -> "-" | Some b -> hex_of_bytes b) o.o_vals) in
+    String.concat " " (toks @ [fin])
+  | _ -> "BADREQ"
+
 let () =
   try
     while true do
@@ -90,6 +110,7 @@ let () =
       | "P" :: args -> print_endline (do_prng args)
       | "B" :: args -> print_endline (do_blk args)
       | "K" :: args -> print_endline (do_kern args)
+      | "I" :: args -> print_endline (do_it args)
       | _ -> print_endline "BADREQ"
     done
   with End_of_file -> ()
